@@ -14,7 +14,6 @@ import (
 	"github.com/pentops/j5/internal/bcl/internal/verif/codecx"
 	"github.com/pentops/j5/internal/bcl/internal/verif/j5ref"
 	"github.com/pentops/j5/internal/bcl/internal/verif/jx"
-	"github.com/pentops/j5/internal/bcl/internal/verif/pgen"
 	"github.com/pentops/j5/internal/bcl/internal/verif/vf"
 	"google.golang.org/protobuf/reflect/protoreflect"
 	"google.golang.org/protobuf/types/dynamicpb"
@@ -45,7 +44,10 @@ func laneDoc(raw json.RawMessage) ([]vf.Failure, error) {
 	return check(s, msg, c), nil
 }
 
-var lanes = map[string]vf.LaneFunc{"spelling": laneDoc, "fault": laneDoc, "query": laneDoc}
+var lanes = map[string]vf.LaneFunc{"spelling": laneDoc, "fault": laneDoc, "query": laneDoc, "spelling-j5s": laneDoc, "fault-j5s": laneDoc, "query-j5s": laneDoc}
+
+// source selects the schema source of the running lane: raw (G2) or j5s (G1 compiled).
+var source = "raw"
 
 func TestReplay(t *testing.T) {
 	if !vf.RunReplayMode(t, prop, lanes) {
@@ -578,6 +580,11 @@ func inject(t *rapid.T, s *codecx.Schema, st site) string {
 			// compatibly; use the same value under the same-kinded arm if any.
 			other := rapid.SampledFrom(others).Draw(t, "otherarm")
 			v.Members = append(v.Members, jx.Member{Key: other, Val: armVal.Clone()})
+			if rapid.Bool().Draw(t, "extrafirst") {
+				for i, j := 0, len(v.Members)-1; i < j; i, j = i+1, j-1 {
+					v.Members[i], v.Members[j] = v.Members[j], v.Members[i]
+				}
+			}
 			return "two-keys-in-oneof"
 		default:
 			other := rapid.SampledFrom(others).Draw(t, "otherarm")
@@ -585,6 +592,14 @@ func inject(t *rapid.T, s *codecx.Schema, st site) string {
 				if v.Members[i].Key == "!type" {
 					v.Members[i].Val = jx.S(other)
 				}
+			}
+			// member order is free in JSON: the contradicting "!type" may come after
+			// the arm it contradicts
+			if rapid.Bool().Draw(t, "typelast") {
+				for i, j := 0, len(v.Members)-1; i < j; i, j = i+1, j-1 {
+					v.Members[i], v.Members[j] = v.Members[j], v.Members[i]
+				}
+				return "type-contradicts-key:type-last"
 			}
 			return "type-contradicts-key"
 		}
@@ -595,7 +610,7 @@ func inject(t *rapid.T, s *codecx.Schema, st site) string {
 // ---------------------------------------------------------------------------
 
 func drawBase(t *rapid.T) (*codecx.Schema, protoreflect.Message, *jx.Value, map[string]bool) {
-	s, err := codecx.DrawSchema(t, pgen.Supported)
+	s, err := codecx.DrawFrom(t, source)
 	if err != nil {
 		t.Fatalf("generator: %v", err)
 	}
@@ -613,8 +628,14 @@ func drawBase(t *rapid.T) (*codecx.Schema, protoreflect.Message, *jx.Value, map[
 	return s, msg, tree, ctx.Classes
 }
 
-func TestSpelling(t *testing.T) {
-	r := vf.Start(t, prop, "spelling")
+func TestSpelling(t *testing.T) { runSpelling(t, "spelling") }
+func TestSpellingCompiled(t *testing.T) {
+	source = "j5s"
+	runSpelling(t, "spelling-j5s")
+}
+
+func runSpelling(t *testing.T, lane string) {
+	r := vf.Start(t, prop, lane)
 	rapid.Check(t, func(t *rapid.T) {
 		s, msg, tree, _ := drawBase(t)
 		for i := 0; i < 4; i++ {
@@ -624,7 +645,7 @@ func TestSpelling(t *testing.T) {
 			if doc != string(v.Bytes()) {
 				applied = append(applied, "whitespace")
 			}
-			c := docCase{Case: s.Case(msg, "raw"), Lane: "spelling", Doc: doc, What: strings.Join(applied, "+")}
+			c := docCase{Case: s.Case(msg, source), Lane: "spelling", Doc: doc, What: strings.Join(applied, "+")}
 			cls := []string{}
 			for _, a := range applied {
 				cls = append(cls, "var:"+a)
@@ -646,8 +667,14 @@ func refine(s *codecx.Schema, msg protoreflect.Message, tree *jx.Value, c docCas
 	return fails
 }
 
-func TestFault(t *testing.T) {
-	r := vf.Start(t, prop, "fault")
+func TestFault(t *testing.T) { runFault(t, "fault") }
+func TestFaultCompiled(t *testing.T) {
+	source = "j5s"
+	runFault(t, "fault-j5s")
+}
+
+func runFault(t *testing.T, lane string) {
+	r := vf.Start(t, prop, lane)
 	rapid.Check(t, func(t *rapid.T) {
 		s, msg, tree, _ := drawBase(t)
 		for i := 0; i < 6; i++ {
@@ -675,7 +702,7 @@ func TestFault(t *testing.T) {
 				continue
 			}
 			doc := string(v.Bytes())
-			c := docCase{Case: s.Case(msg, "raw"), Lane: "fault", Doc: doc, What: what}
+			c := docCase{Case: s.Case(msg, source), Lane: "fault", Doc: doc, What: what}
 			r.Eval(st.depth >= 1, vf.Hash(c.Files, c.Root, doc), "fault:"+what, "pos:"+st.pos, fmt.Sprintf("depth:%d", min(st.depth, 4)))
 			if st.depth >= 2 && len(doc) < 400 && r.WantSample() {
 				r.Sample(map[string]string{"root": c.Root, "document": doc, "fault": what, "position": st.pos})
@@ -687,8 +714,14 @@ func TestFault(t *testing.T) {
 
 // query lane: scalar members (top level, dotted paths into nested objects,
 // scalar arrays as repeated values) moved to url.Values.
-func TestQuery(t *testing.T) {
-	r := vf.Start(t, prop, "query")
+func TestQuery(t *testing.T) { runQuery(t, "query") }
+func TestQueryCompiled(t *testing.T) {
+	source = "j5s"
+	runQuery(t, "query-j5s")
+}
+
+func runQuery(t *testing.T, lane string) {
+	r := vf.Start(t, prop, lane)
 	rapid.Check(t, func(t *rapid.T) {
 		s, msg, tree, _ := drawBase(t)
 		if tree.Kind != jx.Obj || !strings.HasPrefix(tree.Sem, "object:") {
@@ -760,7 +793,7 @@ func TestQuery(t *testing.T) {
 			ks = append(ks, k)
 		}
 		sortStrings(ks)
-		c := docCase{Case: s.Case(msg, "raw"), Lane: "query", Query: q, Canon: string(canon.Bytes()), What: strings.Join(ks, "+")}
+		c := docCase{Case: s.Case(msg, source), Lane: "query", Query: q, Canon: string(canon.Bytes()), What: strings.Join(ks, "+")}
 		r.Eval(len(q) >= 2 || kinds["nested-path"], vf.Hash(c.Files, c.Root, q), ks...)
 		if len(q) >= 2 && r.WantSample() {
 			r.Sample(map[string]any{"root": c.Root, "query": q, "json": c.Canon})
